@@ -19,8 +19,10 @@ class Contain:
     max_degree = 2
     ob_timeout_ms = 20000
 
-    def __init__(self, A, B, mode="shape", flag=True, swap=False, lim=3, direction=(3, 1), dof=1):
+    def __init__(self, A, B, mode="shape", flag=True, swap=False, lim=3, direction=(3, 1), dof=1, moved=None):
         self.A, self.B, self.mode, self.flag, self.swap = A, B, mode, flag, swap
+        # moved=(dx, dy): A answers containment queries where it was built and is then moved in place (with B) before the question
+        self.moved = (F(moved[0]), F(moved[1])) if moved else None
         self.lim = lim
         self.dir = (F(direction[0]), F(direction[1]))
         self.dof = dof
@@ -37,6 +39,14 @@ class Contain:
     def run(self, xs):
         tx, ty = self.shift(xs)
         A = geom.make(self.A)
+        if self.moved:
+            for name in ("unit", "far"):
+                w = geom.make(name, F(1, 3), F(1, 7))
+                w in A
+                A in w
+            A.box()
+            A.move(self.moved[0], self.moved[1])
+            tx, ty = tx + self.moved[0], ty + self.moved[1]
         B = geom.make(self.B, tx, ty)
         if self.mode == "shape":
             ans = bool(A in B) if self.swap else bool(B in A)
@@ -52,6 +62,9 @@ class Contain:
     # regions: inner must be a subset of (the closure of) outer
     def regs(self, xs):
         tx, ty = self.shift(xs)
+        if self.moved:
+            ra, rb = geom.region_of_name(self.A, self.moved[0], self.moved[1]), geom.region_of_name(self.B, tx + self.moved[0], ty + self.moved[1])
+            return (rb, ra) if self.swap and self.mode == "shape" else (ra, rb)
         ra, rb = geom.region_of_name(self.A), geom.region_of_name(self.B, tx, ty)
         return (rb, ra) if self.swap and self.mode == "shape" else (ra, rb)
 
@@ -198,6 +211,9 @@ def specs(tier):
     if tier != "quick":
         for A, B in [("big", "square"), ("penta", "unit"), ("hollow", "unit")]:
             out.append(dict(module="checks.c03", scenario="Contain", params=dict(A=A, B=B, dof=2, lim=2), time_budget=1800))
+    for A, B in [("two", "unit"), ("hollow", "unit")] + ([("framedot", "unit"), ("inv:two", "tri")] if tier != "quick" else []):
+        # the container answered queries where it was built and was then moved in place
+        out.append(dict(module="checks.c03", scenario="Contain", params=dict(A=A, B=B, moved=["1", "20"]), time_budget=None if tier == "quick" else 1800))
     for d in ((0, 1), (1, 0)):
         out.append(dict(module="checks.c03", scenario="Contain", params=dict(A="youb", B="bar2", direction=list(d), lim=2), time_budget=None if tier == "quick" else 1800))
         out.append(dict(module="checks.c03", scenario="Contain", params=dict(A="youb", B="bar2", direction=list(d), lim=2, mode="jordan"), time_budget=None if tier == "quick" else 1800))
